@@ -691,6 +691,11 @@ func newParseOptions(b []byte) (NewOptions, error) {
 		t := b[i]
 		l := int(b[i+1]) * 8
 
+		// RFC 4861 4.6: an option of length zero is invalid; it would also never advance.
+		if l == 0 {
+			return NewOptions{}, io.ErrUnexpectedEOF
+		}
+
 		// Verify that we won't advance beyond the end of the byte slice.
 		if l > len(b[i:]) {
 			return NewOptions{}, io.ErrUnexpectedEOF
